@@ -29,7 +29,12 @@ package totp2fa
 //@   ensures[C02] no_factor_no_effect: (ctxuser(r) != nil && len(TOTPSecretKey(ctxuser(r))) == 0) ==> (!emits Sess.Put(_, _) && !emits Redirect(_))
 //@
 //@ func (*TOTP).PostValidate
-//@   property C01 C02 C03 C04 C12 C13 C18 C17
+//@   property C01 C02 C03 C04 C07 C09 C12 C13 C18 C17
+//@   -- C07: the half-auth mark of a remembered session is only cleared by a login that is in fact
+//@   -- written to the session
+//@   ensures[C07] halfauth_only_cleared_by_login: each Sess.Del("halfauth") => before Sess.Put("uid", _)
+//@   -- C09: a login is announced with the after-auth event (which is what starts the idle clock)
+//@   ensures[C09] login_announced: each Sess.Put("uid", _) => after Fire("After", EventAuth, _, _, _)
 //@   ensures[C17] no_secret_leak: secrets_clean
 //@   -- C01/C02/C13: the session is completed only for the logged-in user, or - when nobody is
 //@   -- logged in - for the account parked in totp_pending, and only with that account's own factor
